@@ -22,7 +22,8 @@ RULE = ("generated pipelines of 1..3 catalogued operator stages (122 stage kinds
 ASSUMPTIONS = ["windows and groups are flattened inside the generated pipelines, so the subscriber holds no live group/window after the terminal",
                "single-threaded execution: virtual time for timelines, the default current-thread trampoline for cold synchronous producers"]
 TRUSTED_EXTRA = ["AST ownership translator harness/xlate/ownership.py (fails closed: unknown shapes are not 'owned')",
-                 "class-level recording wrappers on the real disposable classes (harness/heaptrace.py)"]
+                 "class-level recording wrappers on the real disposable classes (harness/heaptrace.py)",
+                 "harness/trampipes.py: default-scheduler runs on a fresh thread per case; leaf subscriptions marked by a defer factory (opened) and a finally_action (released)"]
 LEVEL_TEXT = ("Lean theorems over ALL sequences of container calls on a heap of disposables (Composite/Serial/SingleAssignment/MultipleAssignment/"
               "RefCount/inner/leaf): the heap is closed after every call, dispose(root) disposes everything reachable through owning edges "
               "(through a RefCountDisposable once its dependents are released), late attachments are disposed at once, nothing is un-disposed; "
